@@ -247,9 +247,28 @@ func run(t vlib.TB, test string, sc scenario) {
 		recGot, diagGot := map[int]int{}, map[int]int{}
 		anyFail, diagFail := false, false
 		var diagPayload []byte
-		for _, e := range evs {
+		for i, e := range evs {
 			if e.Kind != "write" {
 				continue
+			}
+			if (e.W%4 == 2 || e.W%4 == 3) && e.W < nw {
+				// a destination that asks to be told the severity: the record's own, Warn for the diagnostic (C03's clause,
+				// looked at here because only failing destinations produce the second kind of record)
+				wantSev := r
+				if !bytes.Contains(e.Payload, []byte(tok)) {
+					wantSev = slog.WarnLevel
+				}
+				told := false
+				for j := i - 1; j >= 0; j-- {
+					if evs[j].W == e.W && evs[j].Kind != "write" {
+						told = evs[j].Kind == "setlevel" && evs[j].Level == wantSev
+						break
+					}
+				}
+				if !told {
+					t.Fatalf("C13 %s: call #%d (%s, severity %v): the level-settable destination w%d was not told severity %v immediately before the Write of %q; events: %v",
+						desc(), n, phase, r, e.W, wantSev, vlib.Short(string(e.Payload)), evs)
+				}
 			}
 			switch {
 			case bytes.Contains(e.Payload, []byte(tok)):
